@@ -22,6 +22,10 @@ def special_grammars(rnd):
     out.append([("opt", ("seq", [L("a"), ("opt", L("b"))]))])
     out.append([("many", ("alt", [w("--x=", ["1", "2"]), w("--y=", ["3", "4"]), w("--z=", ["5", "6", "7"])]))])
     out.append([("seq", [("fb", [L("f0"), L("f1", "lvl"), R("UNDEF")]), ("sub", [L("-k"), R("UNDEF2")])])])
+    out = [(v, []) for v in out]
+    # one within-word expression (behind a definition) used at two places; two different within-word expressions in a row
+    out.append(([("alt", [("seq", [R("OPT"), L("file")]), ("seq", [L("sub"), R("OPT")])])], [("OPT", "", w("--color=", ["always", "never"]))]))
+    out.append(([("seq", [w("--color=", ["always", "never"]), w("--level=", ["1", "2"]), ("opt", w("--color=", ["always", "never"]))])], []))
     return out
 
 
@@ -47,23 +51,23 @@ def project_dfa(text):
 def project_regex(text):
     g = dotread.parse_dot(text)
     if not g.get("ok"):
-        return {"ok": False, "error": g.get("error", ""), "labels": []}
+        return {"ok": False, "error": g.get("error", ""), "labels": [], "unlabelled": 0}
     labels = []
-
-    def collect(gr):
-        for nid, attrs in gr["nodes"].items():
-            if "label" in attrs:
-                labels.append([ord(ch) for ch in dotread.decode_label(attrs["label"])])
-    collect(g["graph"])
-    return {"ok": True, "error": "", "labels": labels}
+    unlabelled = 0
+    for nid, attrs in g["graph"]["nodes"].items():
+        if "label" in attrs:
+            labels.append([ord(ch) for ch in dotread.decode_label(attrs["label"])])
+        else:
+            unlabelled += 1
+    return {"ok": True, "error": "", "labels": labels, "unlabelled": unlabelled}
 
 
 def build_corpus(tier, seed):
     rnd = random.Random(seed)
     cases = []
-    for variants in special_grammars(rnd):
+    for variants, defs in special_grammars(rnd):
         for sh in gen.SHELLS:
-            cases.append(corpus.finish(gen.case(variants, [], shell=sh), len(cases) + 1, origin="special"))
+            cases.append(corpus.finish(gen.case(variants, defs, shell=sh), len(cases) + 1, origin="special"))
     for c in corpus.random_cases((40 if tier == "quick" else 800) * 4, seed + 16, start_id=1000, shells=gen.SHELLS, depth=4, with_probes=False,
                                  lits=["a", 'q"r', "k\\l", "--x=", "b", "{c}", "-y", "foo"], p_descr=0.3):
         c["id"] = len(cases) + 1
